@@ -5,7 +5,6 @@ use crate::parsing::query_string::parse_query_string;
 use crate::parsing::ruby_hash::parse_ruby_hash;
 use crate::parsing::xml::{ParseOptions, parse_xml};
 use crate::value::Value;
-use ordered_float::NotNan;
 use percent_encoding::percent_decode;
 
 use super::{
@@ -167,17 +166,13 @@ pub fn apply_filter(value: &Value, filter: &GrokFilter) -> Result<Value, Interna
         GrokFilter::Scale(scale_factor) => {
             let scale_factor = scale_factor * 1000_f64 / 1000_f64;
             let v = match value {
-                Value::Integer(v) => Ok(Value::Float(
-                    NotNan::new((*v as f64) * scale_factor).expect("NaN"),
-                )),
-                Value::Float(v) => Ok(Value::Float(
-                    NotNan::new(v.into_inner() * scale_factor).expect("NaN"),
-                )),
+                Value::Integer(v) => Ok(Value::from_f64_or_zero((*v as f64) * scale_factor)),
+                Value::Float(v) => Ok(Value::from_f64_or_zero(v.into_inner() * scale_factor)),
                 Value::Bytes(v) => {
                     let v = String::from_utf8_lossy(v).parse::<f64>().map_err(|_e| {
                         InternalError::FailedToApplyFilter(filter.to_string(), value.to_string())
                     })?;
-                    Ok(Value::Float(NotNan::new(v * scale_factor).expect("NaN")))
+                    Ok(Value::from_f64_or_zero(v * scale_factor))
                 }
                 _ => Err(InternalError::FailedToApplyFilter(
                     filter.to_string(),
